@@ -851,6 +851,12 @@ class RealLedgerConcurrent:
                 await resave_fundings(ledger)
                 if sorted(seen) != await reserved_ids(ledger):
                     problems.append('an output held by a build is no longer reserved after its transaction was saved again by sync')
+                # the wallet server connection drops and comes back (Ledger.join_network is the on_connected handler): the builds keep
+                # their outputs - reservations end with broadcast or abandon, not with a reconnect
+                held_before = await reserved_ids(ledger)
+                await asyncio.wait_for(ledger.join_network(), 10)
+                if await reserved_ids(ledger) != held_before:
+                    problems.append('a reconnect to the wallet server released outputs that builds still hold')
                 later = await asyncio.gather(*[
                     Transaction.create([], [Output.pay_pubkey_hash(3 * COIN, bytes([i + 101]) * 20)], [account], account)
                     for i in range(2)], return_exceptions=True)
